@@ -71,6 +71,7 @@ func (f *CountIf) Call(s *slip.Scope, args slip.List, depth int) (result slip.Ob
 
 	switch ta := args[1].(type) {
 	case nil:
+		sfv.checkBounds(s, depth, 0)
 		result = slip.Fixnum(0)
 	case slip.List:
 		result = slip.Fixnum(f.inList(s, ta, depth, &sfv))
@@ -85,9 +86,7 @@ func (f *CountIf) Call(s *slip.Scope, args slip.List, depth int) (result slip.Ob
 }
 
 func (f *CountIf) inList(s *slip.Scope, seq slip.List, depth int, sfv *seqFunVars) (count int) {
-	if sfv.end < 0 || len(seq) < sfv.end {
-		sfv.end = len(seq)
-	}
+	sfv.checkBounds(s, depth, len(seq))
 	d2 := depth + 1
 	if sfv.fromEnd {
 		for i := sfv.end - 1; sfv.start <= i; i-- {
@@ -115,9 +114,7 @@ func (f *CountIf) inList(s *slip.Scope, seq slip.List, depth int, sfv *seqFunVar
 
 func (f *CountIf) inString(s *slip.Scope, seq slip.String, depth int, sfv *seqFunVars) (count int) {
 	ra := []rune(seq)
-	if sfv.end < 0 || len(ra) < sfv.end {
-		sfv.end = len(ra)
-	}
+	sfv.checkBounds(s, depth, len(ra))
 	d2 := depth + 1
 	var key slip.Object
 	if sfv.fromEnd {
